@@ -2,6 +2,8 @@
 that belong to the transport or to other properties.  Each one is listed in the evidence of the properties using it."""
 from pyvc.spec import *
 
+GROUP = 'fsm'   # contracts of one group use each other's contracts at call sites (pyvc/hooks.py contract_for_call)
+
 
 # ------------------------------------------------------------------------------------------ transport (effect only)
 @contract('internal_com.rpchandler:RpcHandler.send_state_event', props=[])
